@@ -79,21 +79,33 @@ func c14Pred(r *fw.Rand) string {
 
 func c14Case(r *fw.Rand, index string) fw.Case {
 	ops := []string{"reset " + index}
+	// most of a history happens in one measurement: repeated drops and re-creations there
+	focus := c10Meas[r.Intn(3)]
+	last := focus
+	pm := func() string {
+		last = c10Meas[r.Intn(3)]
+		if r.Intn(5) < 3 {
+			last = focus
+		}
+		return last
+	}
 	batch := func() string {
 		n := 1 + r.Intn(8)
 		var pts []string
 		for i := 0; i < n; i++ {
-			pts = append(pts, fmt.Sprintf("%s|%s|%d|n=i%d", c10Meas[r.Intn(3)], c14Tags(r), c10Base+int64(r.Intn(20))*1000, r.Intn(100)))
+			m := c10Meas[r.Intn(3)]
+			if r.Intn(2) == 0 {
+				m = focus
+			}
+			pts = append(pts, fmt.Sprintf("%s|%s|%d|n=i%d", m, c14Tags(r), c10Base+int64(r.Intn(20))*1000, r.Intn(100)))
 		}
 		return strings.Join(pts, ";")
 	}
 	observe := func() {
 		ops = append(ops, "meas", "series", "card", "measin m0,m2")
-		m := c10Meas[r.Intn(3)]
+		m := last // the measurement the step before touched
 		ops = append(ops, "tagkeys "+m, "tagvals "+m+" host", "tagvals "+m+" region")
-		for i := 0; i < 2; i++ {
-			ops = append(ops, "seriesby "+c10Meas[r.Intn(3)]+" "+c14Pred(r))
-		}
+		ops = append(ops, "seriesby "+m+" "+c14Pred(r), "seriesby "+c10Meas[r.Intn(3)]+" "+c14Pred(r))
 		ops = append(ops, fmt.Sprintf("read %s %s n %d %d asc", c10Meas[r.Intn(3)], c14Tags(r), int64(-9223372036854775806), int64(9223372036854775806)))
 	}
 	for i := 0; i < 1+r.Intn(3); i++ {
@@ -106,16 +118,20 @@ func c14Case(r *fw.Rand, index string) fw.Case {
 		case 0, 1, 2:
 			ops = append(ops, "w "+batch())
 		case 3, 4:
-			ops = append(ops, "drops "+c10Meas[r.Intn(3)]+" "+c14Pred(r))
+			ops = append(ops, "drops "+pm()+" "+c14Pred(r))
 			observe()
 		case 5:
-			ops = append(ops, "drops "+c10Meas[r.Intn(3)]+" - - -")
+			ops = append(ops, "drops "+pm()+" - - -")
 			observe()
 		case 6:
-			ops = append(ops, "dropm "+c10Meas[r.Intn(3)])
+			ops = append(ops, "dropm "+pm())
 			observe()
 		case 7:
-			ops = append(ops, fmt.Sprintf("del %s %s -inf +inf", c10Meas[r.Intn(3)], []string{"-", "host=a", "region=x"}[r.Intn(3)]))
+			rng := "-inf +inf"
+			if r.Intn(2) == 0 {
+				rng = fmt.Sprintf("%d %d", c10Base, c10Base+40000) // every instant the history writes at
+			}
+			ops = append(ops, fmt.Sprintf("del %s %s %s", pm(), []string{"-", "host=a", "region=x"}[r.Intn(3)], rng))
 			observe()
 		case 8:
 			ops = append(ops, "idxcompact")
@@ -142,7 +158,7 @@ func (C14) Generate(r *fw.Rand, tier string) []fw.Case {
 	}
 	var cases []fw.Case
 	for i := 0; i < n; i++ {
-		cases = append(cases, c14Case(r.Fork(), []string{"inmem", "tsi1", "tsi1c"}[i%3]))
+		cases = append(cases, c14Case(r.Fork(), []string{"inmem", "tsi1", "tsi1c", "inmem", "tsi1+2", "tsi1c+2"}[i%6]))
 	}
 	return cases
 }
